@@ -284,6 +284,82 @@ pub fn dense_displacements(tier: Tier) -> Vec<LzInput> {
     v
 }
 
+/// NEAR-repeats: a block, then the same block with exactly ONE byte changed, for every position
+/// of the change and block lengths around the formats' match limits — a match measured by
+/// anything coarser than byte-by-byte comparison (words, a fingerprint of head and tail) accepts
+/// the changed block as a full match and emits a reference to the wrong bytes.
+pub fn near_repeats() -> Vec<LzInput> {
+    let filler = norepeat(700, 21);
+    let mut v = Vec::new();
+    for len in (3usize..=20).chain([32, 33, 64, 272, 273, 300]) {
+        let positions: Vec<usize> = if len <= 33 { (0..len).collect() } else { vec![0, 1, 7, 8, 9, 15, 16, 17, 31, 32, len / 2, len - 2, len - 1] };
+        for pos in positions {
+            for gap in [0usize, 5] {
+                let block = &filler[100..100 + len];
+                let mut changed = block.to_vec();
+                changed[pos] ^= 0x5A;
+                let mut data = filler[..9].to_vec();
+                data.extend_from_slice(block);
+                data.extend_from_slice(&filler[500..500 + gap]);
+                data.extend_from_slice(&changed);
+                data.extend_from_slice(&filler[600..604]);
+                // and once more the original, so that a true full match exists as well
+                data.extend_from_slice(block);
+                v.push(LzInput { family: "near-repeat", desc: format!("block of {} bytes, then the block with byte {} changed (gap {}), then the block", len, pos, gap), data });
+            }
+        }
+    }
+    v
+}
+
+/// CLOSURE under the codecs: inputs that are themselves well-formed compressed files (LZ10, bare
+/// LZ11, LZ11 behind the 0x13 wrapper, the type-0 stored form) of small and medium data, written
+/// by the reference encoder — a compressor that "recognises" compressed input, or a decompressor
+/// that keeps unpacking, treats them differently from any other bytes.
+pub fn codec_closure() -> Vec<LzInput> {
+    use vcore::ref_lz::{self, Kind, Token};
+    let mut v = Vec::new();
+    let datas: Vec<Vec<u8>> = vec![vec![], vec![0x41], b"abcabcabcabcabc".to_vec(), norepeat(40, 5), vec![0u8; 300], (0..5000u32).map(|i| (i % 7) as u8).collect()];
+    for (k, d) in datas.iter().enumerate() {
+        // tokens: greedy run-length style so that references occur
+        let mut toks: Vec<Token> = Vec::new();
+        let mut i = 0usize;
+        while i < d.len() {
+            let mut best = (0usize, 0usize);
+            for disp in 1..=i.min(64) {
+                let mut l = 0usize;
+                while i + l < d.len() && l < 18 && d[i + l - disp] == d[i + l] {
+                    l += 1;
+                }
+                if l > best.0 {
+                    best = (l, disp);
+                }
+            }
+            if best.0 >= 3 {
+                toks.push(Token::Ref { len: best.0, disp: best.1 });
+                i += best.0;
+            } else {
+                toks.push(Token::Lit(d[i]));
+                i += 1;
+            }
+        }
+        let lz10 = ref_lz::encode(&toks, Kind::Lz10, d.len(), None);
+        let lz11 = ref_lz::encode(&toks, Kind::Lz11, d.len(), None);
+        let mut wrapped = vec![0x13, lz11.len() as u8, (lz11.len() >> 8) as u8, (lz11.len() >> 16) as u8];
+        wrapped.extend_from_slice(&lz11);
+        let mut stored = vec![0u8, d.len() as u8, (d.len() >> 8) as u8, (d.len() >> 16) as u8];
+        stored.extend_from_slice(d);
+        for (name, bytes) in [("lz10", lz10), ("lz11", lz11), ("lz13-wrapped", wrapped.clone()), ("stored", stored)] {
+            v.push(LzInput { family: "closure", desc: format!("a well-formed {} file of data #{} ({} bytes) as input", name, k, d.len()), data: bytes });
+        }
+        // twice wrapped
+        let mut twice = vec![0x13, wrapped.len() as u8, (wrapped.len() >> 8) as u8, (wrapped.len() >> 16) as u8];
+        twice.extend_from_slice(&wrapped);
+        v.push(LzInput { family: "closure", desc: format!("a wrapper around a wrapped file of data #{}", k), data: twice });
+    }
+    v
+}
+
 /// "Twin blocks": two blocks that differ in exactly two adjacent bytes chosen so that the blocks
 /// have the SAME polynomial fingerprint h = h*M + byte for a common multiplier M (31: "Aa"/"BB",
 /// 33, 37, 131) — a match finder that trusts a fingerprint without comparing bytes emits a
